@@ -117,7 +117,13 @@ def gen_strings(tier, seed):
             if emit(s):
                 yield {'text': s}
     for s in ['1,2,3', '1,2,3,4,5', '1,2,3,4,', ',1,2,3,4', '1,2,,4', 'a,b,c,d', '1 2 3 4', '[1,2,3,4]', '{"type": "Point", "coordinates": [1, 2]}',
-              '{"type":"Polygon","bbox":[1,2,3,4],"coordinates":[[[0,0],[1,0],[1,1],[0,0]]]}', 'nope', '', '1,2,3,4\r\n', '１,２,３,４']:
+              '{"type":"Polygon","bbox":[1,2,3,4],"coordinates":[[[0,0],[1,0],[1,1],[0,0]]]}', 'nope', '', '1,2,3,4\r\n', '１,２,３,４',
+              # a ring that crosses itself (bow-tie), a ring that touches itself, a polygon with a hole, a multi-polygon: what the library reads is what is used
+              '{"type":"Polygon","coordinates":[[[0,0],[4,4],[4,0],[0,4],[0,0]]]}',
+              '{"type":"Polygon","coordinates":[[[0,0],[2,2],[4,0],[4,4],[2,2],[0,4],[0,0]]]}',
+              '{"type":"Polygon","coordinates":[[[0,0],[9,0],[9,9],[0,9],[0,0]],[[2,2],[2,4],[4,4],[4,2],[2,2]]]}',
+              '{"type":"MultiPolygon","coordinates":[[[[0,0],[1,0],[1,1],[0,0]]],[[[5,5],[6,5],[6,6],[5,5]]]]}',
+              '{"type":"LineString","coordinates":[[0,0],[1,1],[0,1],[1,0]]}']:
         if emit(s):
             yield {'text': s}
     n_random = 300 if tier == 'quick' else 5000
@@ -157,8 +163,15 @@ def test_string(inp):
                     exp = shapely.geometry.shape(js)
                 except Exception:
                     return f'geometry_argument({s!r}) took text that is neither bounds nor GeoJSON as {got.wkt}'
-                if not got.equals(exp):
+                if got.wkb != exp.wkb:
                     return f'geometry_argument({s!r}) = {got.wkt} but the GeoJSON denotes {exp.wkt}'
+            if name == 'geometry_argument' and got is None:
+                try:
+                    exp = shapely.geometry.shape(json.loads(s))
+                except Exception:
+                    exp = None
+                if exp is not None:
+                    return f'geometry_argument({s!r}) refused GeoJSON text that shapely reads as {exp.wkt}: {err}'
     return None
 
 
